@@ -97,6 +97,15 @@ static void foreign_ops(unit_t *u)
             ABT_thread_yield();
     }
 }
+static int g_kd[64];
+static struct kc { int first, step; } g_kc[4];
+static void *key_creator(void *p)
+{
+    struct kc *c = (struct kc *)p;
+    for (int k = c->first; k < g_nk; k += c->step)
+        CHK(ABT_key_create(g_kd[k] ? dtor : NULL, &K[k]));
+    return NULL;
+}
 static void scenario(const char *name, uint64_t seed)
 {
     (void)name;
@@ -117,10 +126,27 @@ static void scenario(const char *name, uint64_t seed)
     g_nk = 3 * tsize > MAXK ? MAXK : 3 * tsize;
     if (g_nk < 3)
         g_nk = 3;
-    for (int k = 0; k < g_nk; k++) {
-        int d = rnd(4) != 0;
-        CHK(ABT_key_create(d ? dtor : NULL, &K[k]));
-        EV("\"e\":\"KeyNew\",\"k\":%d,\"d\":%d", k, d);
+    {
+        /* the keys are created by the primary ULT or, at the same time, by several external
+         * threads: every key is a key of its own whoever created it when */
+        int nc = rnd(3) ? 0 : 2 + rnd(2);
+        for (int k = 0; k < g_nk; k++)
+            g_kd[k] = rnd(4) != 0;
+        if (nc) {
+            pthread_t th[4];
+            for (int i = 0; i < nc; i++) {
+                g_kc[i].first = i;
+                g_kc[i].step = nc;
+                pthread_create(&th[i], NULL, key_creator, &g_kc[i]);
+            }
+            for (int i = 0; i < nc; i++)
+                pthread_join(th[i], NULL);
+        } else {
+            for (int k = 0; k < g_nk; k++)
+                CHK(ABT_key_create(g_kd[k] ? dtor : NULL, &K[k]));
+        }
+        for (int k = 0; k < g_nk; k++)
+            EV("\"e\":\"KeyNew\",\"k\":%d,\"d\":%d", k, g_kd[k]);
     }
     g_nu = 1 + rnd(MAXU);
     memset(U, 0, sizeof U);
